@@ -499,6 +499,16 @@ Qed.
 End Induced.
 
 (* ------------------------------------------------------------------ load *)
+Lemma s_load_nontext srt x : S.is_text x = false -> S.load srt x = S.Ok x.
+Proof. intros H. exact (SL.load_nontext srt true x H). Qed.
+Lemma s_load_carrier srt : S.RuntimeLaws srt -> forall k s, S.encodable s = true ->
+  S.load srt (S.carrier srt k s) = S.load srt (S.PText S.CStr s).
+Proof. intros RL k s He. exact (SL.load_carrier srt RL k s He). Qed.
+Lemma s_load_plain srt : S.RuntimeLaws srt -> forall k s e1 e2, S.encodable s = true ->
+  S.json_loads_str srt s = S.Raise e1 -> S.literal_eval srt s = S.Raise e2 ->
+  S.load srt (S.carrier srt k s) = S.Ok (S.PText S.CStr s).
+Proof. intros RL k s e1 e2 He H1 H2. exact (SL.load_plain_text srt RL k s e1 e2 He H1 H2). Qed.
+
 Section Ser.
 Variable T : tshape.
 Variable srt : S.Runtime.
@@ -567,10 +577,76 @@ Lemma load_embS rt v x : LoadLaw T srt rt -> embS T v = Some x -> C.load rt v = 
 Proof.
   intros L H. rewrite (load_commute rt v L). destruct (C.is_scalar v) eqn:Hs.
   - destruct v; try discriminate; cbn [embS] in H; inversion H; reflexivity.
-  - rewrite (SL.load_nontext srt true x (embS_nonscalar_nontext v x Hs H)). cbn [undown].
+  - rewrite (s_load_nontext srt x (embS_nonscalar_nontext v x Hs H)). cbn [undown].
     rewrite (unS_embS v x H). reflexivity.
 Qed.
 End Ser.
+
+(* ---- induction on the values of the text model ---- *)
+Section SPvInd.
+Variable Q : S.pv -> Prop.
+Hypothesis HNone : Q S.PNone.
+Hypothesis HBool : forall b, Q (S.PBool b).
+Hypothesis HInt : forall z, Q (S.PInt z).
+Hypothesis HFloat : forall m e, Q (S.PFloat m e).
+Hypothesis HFloatS : forall n, Q (S.PFloatS n).
+Hypothesis HText : forall k p, Q (S.PText k p).
+Hypothesis HList : forall l, Forall Q l -> Q (S.PList l).
+Hypothesis HTuple : forall l, Forall Q l -> Q (S.PTuple l).
+Hypothesis HSet : forall l, Forall Q l -> Q (S.PSet l).
+Hypothesis HDict : forall l, Forall (fun kv => Q (fst kv) /\ Q (snd kv)) l -> Q (S.PDict l).
+Hypothesis HOther : forall i, Q (S.POther i).
+Fixpoint spv_ind' (x : S.pv) : Q x :=
+  let go := fix go (l : list S.pv) : Forall Q l :=
+              match l with [] => Forall_nil _ | y :: r => Forall_cons _ (spv_ind' y) (go r) end in
+  match x with
+  | S.PNone => HNone | S.PBool b => HBool b | S.PInt z => HInt z | S.PFloat m e => HFloat m e
+  | S.PFloatS n => HFloatS n | S.PText k p => HText k p
+  | S.PList l => HList l (go l) | S.PTuple l => HTuple l (go l) | S.PSet l => HSet l (go l)
+  | S.PDict l =>
+      HDict l ((fix god (l : list (S.pv * S.pv)) : Forall (fun kv => Q (fst kv) /\ Q (snd kv)) l :=
+                  match l with
+                  | [] => Forall_nil _
+                  | kv :: r => Forall_cons _ (conj (spv_ind' (fst kv)) (spv_ind' (snd kv))) (god r)
+                  end) l)
+  | S.POther i => HOther i
+  end.
+End SPvInd.
+
+(* reading a decoded value as a core value loses nothing: the core value embeds back to the decoded one *)
+Section UnSSound.
+Variable T : tshape.
+Hypothesis SB : SBackLaws T.
+
+Lemma unS_scalar_sound x v : s_scalar x = true -> s_back T x = Some v -> embS T v = Some x.
+Proof.
+  intros Hx Hb. destruct (sb_scalar T SB x v Hx Hb) as [Hs Hsc].
+  destruct v; try discriminate; cbn [embS]; rewrite Hsc; reflexivity.
+Qed.
+
+Lemma unS_sound : forall x v, unS T x = Some v -> embS T v = Some x.
+Proof.
+  induction x as [|b|z|m e|n|k p|l IH|l IH|l IH|l IH|i] using spv_ind'; intros v H;
+    try (apply unS_scalar_sound; [reflexivity | exact H]).
+  - cbn [unS] in H. destruct (omap (unS T) l) as [t|] eqn:Ht; [|discriminate]. inversion H. subst. cbn [embS].
+    rewrite (omap_forall (unS T) (embS T) l t IH Ht). reflexivity.
+  - cbn [unS] in H. destruct (omap (unS T) l) as [t|] eqn:Ht; [|discriminate]. inversion H. subst. cbn [embS].
+    rewrite (omap_forall (unS T) (embS T) l t IH Ht). reflexivity.
+  - cbn [unS] in H. destruct (omap (unS T) l) as [t|] eqn:Ht; [|discriminate]. inversion H. subst. cbn [embS].
+    rewrite (omap_forall (unS T) (embS T) l t IH Ht). reflexivity.
+  - cbn [unS] in H.
+    destruct (omap (fun ab : S.pv * S.pv => match ab with (a, b) => opair (unS T a) (unS T b) end) l) as [t|] eqn:Ht;
+      [|discriminate].
+    inversion H. subst. cbn [embS].
+    rewrite (omap_forall (fun ab : S.pv * S.pv => match ab with (a, b) => opair (unS T a) (unS T b) end)
+                         (fun ab : C.pv * C.pv => match ab with (a, b) => opair (embS T a) (embS T b) end) l t);
+      [reflexivity| |exact Ht].
+    clear Ht H. induction IH as [|[a b] l [Ha Hb] Hl IHl]; constructor; [|exact IHl].
+    intros [a' b'] Hab. cbn [fst snd] in Ha, Hb. unfold opair in Hab.
+    destruct (unS T a) as [a2|] eqn:Ea; [|discriminate]. destruct (unS T b) as [b2|] eqn:Eb; [|discriminate].
+    inversion Hab. subst. rewrite (Ha _ eq_refl), (Hb _ eq_refl). reflexivity.
+Qed.
+End UnSSound.
 
 (* ------------------------------------------------------------------ C14 carried over to Core.load *)
 Section LoadFacts.
@@ -586,7 +662,7 @@ Lemma io_load_carriers a1 a2 k s : S.RuntimeLaws srt -> S.encodable s = true ->
   a_ser T a1 = S.carrier srt k s -> a_ser T a2 = S.PText S.CStr s ->
   C.load rt (C.PAtom a1) = C.load rt (C.PAtom a2).
 Proof.
-  intros RL He H1 H2. rewrite !load_atom, H1, H2, (SL.load_carrier srt RL k s He). reflexivity.
+  intros RL He H1 H2. rewrite !load_atom, H1, H2, (s_load_carrier srt RL k s He). reflexivity.
 Qed.
 
 Lemma io_load_json a k s r : S.RuntimeLaws srt -> S.encodable s = true -> S.json_loads_str srt s = S.Ok r ->
@@ -599,14 +675,14 @@ Lemma io_load_plain a k s e1 e2 : S.RuntimeLaws srt -> S.encodable s = true ->
   S.json_loads_str srt s = S.Raise e1 -> S.literal_eval srt s = S.Raise e2 ->
   a_ser T a = S.carrier srt k s -> C.load rt (C.PAtom a) = undown T (S.Ok (S.PText S.CStr s)).
 Proof.
-  intros RL He H1 H2 Ha. rewrite load_atom, Ha, (SL.load_plain_text srt RL k s e1 e2 He H1 H2). reflexivity.
+  intros RL He H1 H2 Ha. rewrite load_atom, Ha, (s_load_plain srt RL k s e1 e2 He H1 H2). reflexivity.
 Qed.
 
 Lemma io_load_nontext v : C.is_scalar v = true -> S.is_text (sc T v) = false ->
   C.load rt v = undown T (S.Ok (sc T v)).
 Proof.
   intros Hs Ht. unfold C.load. rewrite Hs, (L v Hs). unfold ind_load.
-  rewrite (SL.load_nontext srt true _ Ht). reflexivity.
+  rewrite (s_load_nontext srt _ Ht). reflexivity.
 Qed.
 End LoadFacts.
 
@@ -627,3 +703,134 @@ Proof. intros Ht H1 H2. apply unm_load_eq; [exact Ht | now rewrite H1, H2]. Qed.
 
 Lemma load_nonscalar rt d : C.is_scalar d = false -> C.load rt d = C.Ok d.
 Proof. intros H. unfold C.load. rewrite H. reflexivity. Qed.
+
+(* ------------------------------------------------------------------ the toy instance satisfies every law *)
+Require Import TL.Model.IoBridgeEq.
+
+Lemma toy_a_iter_int n : toy_a_iter (261 + n) = I.VInt (Z.of_nat n).
+Proof.
+  unfold toy_a_iter. destruct (261 + n) as [|[|[|[|[|m]]]]] eqn:H; try lia. rewrite <- H.
+  assert (Hl : Nat.ltb (261 + n) 261 = false) by (apply Nat.ltb_ge; lia). rewrite Hl.
+  do 2 f_equal. lia.
+Qed.
+Lemma toy_a_iter_chr k : k < 256 -> toy_a_iter (5 + k) = I.VStr (one_char (ascii_of_nat k)).
+Proof.
+  intros Hk. unfold toy_a_iter. destruct (5 + k) as [|[|[|[|[|m]]]]] eqn:H; try lia. rewrite <- H.
+  assert (Hl : Nat.ltb (5 + k) 261 = true) by (apply Nat.ltb_lt; lia). rewrite Hl.
+  do 3 f_equal. lia.
+Qed.
+
+Lemma toy_back_chr c : exists v, toy_back (I.VStr (one_char c)) = Some v.
+Proof. unfold one_char. cbn [toy_back]. destruct (Ascii.eqb c "x"%char); eexists; reflexivity. Qed.
+Lemma toy_back_int i : exists v, toy_back (I.VInt (Z.of_nat i)) = Some v.
+Proof.
+  cbn [toy_back]. assert (H : (Z.of_nat i <? 0)%Z = false) by (apply Z.ltb_ge; lia). rewrite H. eexists; reflexivity.
+Qed.
+
+Ltac toy_defined :=
+  repeat match goal with
+         | |- Forall _ [] => constructor
+         | |- Forall _ (_ :: _) => constructor
+         | |- _ /\ _ => split
+         | |- defined _ _ => first [apply toy_back_chr | apply (toy_back_int 0) | eexists; reflexivity]
+         end.
+
+Lemma toy_emb_atom_cases a :
+  a < 5 \/ (exists c, emb toy_shape toy_env (C.PAtom a) = I.VStr (one_char c)) \/
+  (exists n, emb toy_shape toy_env (C.PAtom a) = I.VInt (Z.of_nat n)).
+Proof.
+  destruct (Nat.lt_ge_cases a 5) as [H|H]; [now left|right].
+  destruct (Nat.lt_ge_cases a 261) as [H2|H2].
+  - left. exists (ascii_of_nat (a - 5)). cbn [emb a_iter toy_shape].
+    replace a with (5 + (a - 5)) at 1 by lia. apply toy_a_iter_chr. lia.
+  - right. exists (a - 261). cbn [emb a_iter toy_shape].
+    replace a with (261 + (a - 261)) at 1 by lia. apply toy_a_iter_int.
+Qed.
+
+Lemma toy_back_laws : BackLaws toy_shape toy_env toy_back.
+Proof.
+  constructor.
+  - (* sound *)
+    intros x v H. destruct x as [| z | s | | | | | |]; try discriminate.
+    + inversion H. reflexivity.
+    + cbn [toy_back] in H. destruct (z <? 0)%Z eqn:Hz; [discriminate|].
+      assert (Hv : v = C.PAtom (261 + Z.to_nat z)) by congruence. subst v.
+      cbn [emb a_iter toy_shape]. rewrite toy_a_iter_int. f_equal. apply Z.ltb_ge in Hz. lia.
+    + destruct s as [|c [|c2 s']].
+      * vm_compute in H. inversion H. reflexivity.
+      * cbn [toy_back] in H. destruct (Ascii.eqb c "x"%char) eqn:Hc.
+        -- apply Ascii.eqb_eq in Hc. subst c. inversion H. reflexivity.
+        -- assert (Hv : v = C.PAtom (5 + nat_of_ascii c)) by congruence. subst v.
+           cbn [emb a_iter toy_shape]. rewrite toy_a_iter_chr by apply nat_ascii_bounded.
+           rewrite ascii_nat_embedding. reflexivity.
+      * cbn [toy_back] in H. set (s := String c (String c2 s')) in *.
+        destruct (String.eqb s "ab") eqn:H1; [apply String.eqb_eq in H1; rewrite H1; inversion H; reflexivity|].
+        destruct (String.eqb s "int") eqn:H2; [apply String.eqb_eq in H2; rewrite H2; inversion H; reflexivity|].
+        destruct (String.eqb s "is_safe") eqn:H3; [apply String.eqb_eq in H3; rewrite H3; inversion H; reflexivity|].
+        destruct (String.eqb s "") eqn:H4; [apply String.eqb_eq in H4; rewrite H4; inversion H; reflexivity|].
+        destruct (String.eqb s "[1,2]") eqn:H5; [apply String.eqb_eq in H5; rewrite H5; inversion H; reflexivity|].
+        discriminate.
+  - (* values *)
+    intros v l Hs H. destruct v as [a|f| | | |]; try discriminate.
+    + destruct (toy_emb_atom_cases a) as [Ha|[[c Hc]|[n Hn]]].
+      * destruct a as [|[|[|[|[|a]]]]]; try lia; vm_compute in H; try discriminate; inversion H; toy_defined.
+      * rewrite Hc in H. vm_compute in H. inversion H. toy_defined.
+      * rewrite Hn in H. discriminate.
+    + destruct f as [|[|[|[|f]]]]; vm_compute in H; inversion H; toy_defined.
+  - (* items *)
+    intros v l Hs H. destruct v as [a|f| | | |]; try discriminate.
+    + destruct (toy_emb_atom_cases a) as [Ha|[[c Hc]|[n Hn]]].
+      * destruct a as [|[|[|[|[|a]]]]]; try lia; vm_compute in H; try discriminate; inversion H; toy_defined.
+      * rewrite Hc in H. vm_compute in H. inversion H. toy_defined.
+      * rewrite Hn in H. discriminate.
+    + destruct f as [|[|[|[|f]]]]; vm_compute in H; inversion H; toy_defined.
+  - (* unpack *)
+    intros v a b Hs H. destruct v as [x|f| | | |]; try discriminate.
+    + destruct (toy_emb_atom_cases x) as [Ha|[[c Hc]|[n Hn]]].
+      * destruct x as [|[|[|[|[|x]]]]]; try lia; vm_compute in H; try discriminate; inversion H; toy_defined.
+      * rewrite Hc in H. vm_compute in H. discriminate.
+      * rewrite Hn in H. discriminate.
+    + destruct f as [|[|[|[|f]]]]; vm_compute in H; try discriminate; inversion H; toy_defined.
+  - exact toy_back_int.
+Qed.
+
+(* ------------------------------------------------------------------ C14 at the composite routines *)
+Lemma unm_carriers T srt rt E n t a1 a2 k s : LoadLaw T srt rt -> S.RuntimeLaws srt -> S.encodable s = true ->
+  a_ser T a1 = S.carrier srt k s -> a_ser T a2 = S.PText S.CStr s -> load_first_ty E t = true ->
+  C.unm rt E n t (C.PAtom a1) = C.unm rt E n t (C.PAtom a2).
+Proof.
+  intros L RL He H1 H2 Ht. apply unm_load_eq; [exact Ht|]. exact (io_load_carriers T srt rt L a1 a2 k s RL He H1 H2).
+Qed.
+
+Lemma unm_json_text T srt rt E n t a k s r d : LoadLaw T srt rt -> S.RuntimeLaws srt -> S.encodable s = true ->
+  S.json_loads_str srt s = S.Ok r -> unS T r = Some d -> C.is_scalar d = false ->
+  a_ser T a = S.carrier srt k s -> load_first_ty E t = true ->
+  C.unm rt E n t (C.PAtom a) = C.unm rt E n t d.
+Proof.
+  intros L RL He Hj Hu Hd Ha Ht. apply unm_loaded; [exact Ht| |exact (load_nonscalar rt d Hd)].
+  rewrite (io_load_json T srt rt L a k s r RL He Hj Ha). cbn [undown]. rewrite Hu. reflexivity.
+Qed.
+
+(* the toy instance: laws hold, so the commutation theorems apply to toy_io_rt *)
+Lemma toy_iter_laws : IterLaws toy_shape toy_env toy_io_rt.
+Proof. exact (induced_iter_laws toy_shape toy_env toy_back toy_back_laws toy_tshape TL.Model.SerdesToy.toy_rt null_rt). Qed.
+
+Lemma toy_a_ser_int n : a_ser toy_tshape (261 + n) = S.PInt (Z.of_nat n).
+Proof.
+  cbn [a_ser toy_tshape]. destruct (261 + n) as [|[|[|[|[|m]]]]] eqn:H; try lia. rewrite <- H.
+  assert (Hl : Nat.ltb (261 + n) 261 = false) by (apply Nat.ltb_ge; lia). rewrite Hl.
+  do 2 f_equal. lia.
+Qed.
+
+Lemma toy_sback_laws : SBackLaws toy_tshape.
+Proof.
+  constructor.
+  - intros x v Hx H. destruct x; try discriminate.
+    + inversion H. split; reflexivity.
+    + cbn [s_back toy_tshape] in H. destruct (z <? 0)%Z eqn:Hz; [discriminate|].
+      assert (Hv : v = C.PAtom (261 + Z.to_nat z)) by congruence. subst v. split; [reflexivity|].
+      cbn [sc]. rewrite toy_a_ser_int. f_equal. apply Z.ltb_ge in Hz. lia.
+  - intros v Hs. destruct v as [a|f| | | |]; try discriminate; [|reflexivity].
+    cbn [sc a_ser toy_tshape]. destruct a as [|[|[|[|[|m]]]]]; try reflexivity.
+    destruct (Nat.ltb (S (S (S (S (S m))))) 261); reflexivity.
+Qed.
